@@ -405,6 +405,14 @@ def extract_type(relpath, name, opts):
                     ed.add(a["span"][0], a["span"][1], "", None if a["path"] == "doc" else "R3", "strip field attr")
     if it["kind"] == "struct":
         strip_fields(it["fields"])
+        for f in it["fields"]:
+            if f["name"] and f["vis"][0] == f["vis"][1]:
+                # R11: private field made `pub` so that contracts of pub fns may mention it (visibility only)
+                seg = src[f["span"][0]:f["ty_span"][0]]
+                m = list(re.finditer(rb"\b" + f["name"].encode() + rb"\s*:", seg))
+                if m:
+                    pos = f["span"][0] + m[-1].start()
+                    ed.add(pos, pos, "pub ", "R11", f"field {f['name']} made pub (visibility only)")
     else:
         for v in it["variants"]:
             dropped = False
@@ -461,6 +469,9 @@ def extract_const(relpath, name, opts):
         xs, xe = it["expr"]
         ed.add(xs, xe, f"{m.group(1)} {{ ns: {nsid}, _p: core::marker::PhantomData }} /* ns={ns} */", "R5",
                f"{name} namespace {ns} -> id {nsid}")
+    if it["ty"].replace(" ", "") == "&str":
+        ts, te = it["ty_span"]
+        ed.add(ts, te, "&'static str", "R10", "const of type &str spelled &'static str (what rustc elides to)")
     if opts.get("expr"):
         xs, xe = it["expr"]
         ed.add(xs, xe, opts["expr"], opts.get("rule", "R5"), "const initialiser replaced: " + opts["expr"])
